@@ -262,6 +262,15 @@ fn walk(n: usize, from: NodeEdge, until: NodeEdge, step: impl Fn(NodeEdge) -> Op
     }
 }
 
+/// One raw step (it may leave the subtree of the node it starts from).
+fn step1(f: impl FnOnce() -> Option<NodeEdge>) -> String {
+    match guard(f) {
+        Ok(Some(e)) => edge(e),
+        Ok(None) => "-".into(),
+        Err(_) => "panic".into(),
+    }
+}
+
 fn pattern<I: DoubleEndedIterator<Item = NodeId>>(pat: &str, mk: impl FnOnce() -> I) -> String {
     let r = guard(|| {
         let mut it = mk();
@@ -703,7 +712,7 @@ impl Exec {
                 #[allow(deprecated)]
                 let rch = pull(n, || x.reverse_children(ar), ix1);
                 format!(
-                    "i anc={} pred={} prec={} foll={} ch={} rch={} desc={} trav={} rtrav={} nt={} pt={}",
+                    "i anc={} pred={} prec={} foll={} ch={} rch={} desc={} trav={} rtrav={} nt={} pt={} n1={} p1={}",
                     pull(n, || x.ancestors(ar), ix1),
                     pull(n, || x.predecessors(ar), ix1),
                     pull(n, || x.preceding_siblings(ar), ix1),
@@ -715,6 +724,8 @@ impl Exec {
                     pull(n, || x.reverse_traverse(ar), edge),
                     walk(n, NodeEdge::Start(x), NodeEdge::End(x), |e| e.next_traverse(ar)),
                     walk(n, NodeEdge::End(x), NodeEdge::Start(x), |e| e.prev_traverse(ar)),
+                    step1(|| NodeEdge::End(x).next_traverse(ar)),
+                    step1(|| NodeEdge::Start(x).prev_traverse(ar)),
                 )
             }
             "qx" => {
